@@ -4,6 +4,7 @@ go 1.26.2
 
 require (
 	github.com/golang/snappy v1.0.0
+	github.com/google/uuid v1.6.0
 	github.com/hydraide/hydraide v0.0.0
 	github.com/hydraide/hydraide/sdk/go/hydraidego/v3 v3.0.0-00010101000000-000000000000
 	github.com/vmihailenco/msgpack/v5 v5.4.1
@@ -13,7 +14,6 @@ require (
 
 require (
 	github.com/cespare/xxhash/v2 v2.3.0 // indirect
-	github.com/google/uuid v1.6.0 // indirect
 	github.com/klauspost/compress v1.18.5 // indirect
 	github.com/pierrec/lz4 v2.6.1+incompatible // indirect
 	github.com/shirou/gopsutil v3.21.11+incompatible // indirect
